@@ -23,6 +23,9 @@ CHECKS = {
  "C06": ("exhaustive enumeration of all 2^16 flag words per jump spelling and all 2^16 CX values x ZF per LOOP/JCXZ spelling against a hand-written predicate table, plus table-independent synonym/complement relations over the outcome bitmaps",
          "exploration, exhaustive for the listed domain in both tiers: every jump/loop spelling of the grammar in both cases, assembled by the Preprocessor (forward and backward target) and executed by the Interpreter on every flag word / every CX; registers, flags and memory compared",
          "trusted: predicate table transcribed from the 8086 manual; known finding quirk:jle-and excused only where the outcome equals the defect model exactly", "3/C06"),
+ "C07": ("model-based testing of the REPEAT protocol: enumeration of every string mnemonic x width x DF x prefix x every CX in 0..=64 x 6 address configurations (disjoint, DS!=ES, overlapping both ways, offset wrap, 2^20 wrap) x constructed first-(non-)match positions, plus proptest-generated string cases, each driven to completion exactly as the driver does and compared with a reference string model (registers, flags, whole memory)",
+         "exploration; CX 0..=64 enumerated for every prefix/mnemonic/width/DF combination (larger CX generated), termination position of REPE/REPNE placed by construction, iteration cap CX+2 turns a runaway REPEAT into a violation",
+         "trusted: reference string model (DS:SI source, ES:DI destination, little-endian words, CMPS = source-destination, SCAS = accumulator-destination, REP protocol from the manual); a word element straddling offset FFFFh may use either reading", "3/C07"),
 }
 
 REASON_WIP = "check not built yet in this revision of /verif (work in progress; see DESIGN.md section 7 for the order of work)"
